@@ -165,6 +165,14 @@ pub proof fn lemma_wstep64(value: i64)
     assert(b < 128 ==> (b | 0b1000_0000u8) == b + 128) by (bit_vector);
 }
 
+// --- sequence concatenation (used by the packet writers) -------------------------------
+pub broadcast proof fn lemma_add_assoc(a: Seq<u8>, b: Seq<u8>, c: Seq<u8>)
+    ensures #[trigger] ((a + b) + c) == a + (b + c)
+{ assert((a + b) + c =~= a + (b + c)); }
+pub broadcast proof fn lemma_add_empty(a: Seq<u8>)
+    ensures #[trigger] (a + Seq::<u8>::empty()) == a
+{ assert(a + Seq::<u8>::empty() =~= a); }
+
 // --- length bounds (C09: at most 5 / 10 groups) -----------------------------------------
 pub proof fn lemma_enc_nat_len(n: nat, k: nat)
     requires n < pow128(k), k >= 1
